@@ -26,7 +26,7 @@ import (
 )
 
 type c08iOp struct {
-	K string `json:"k"` // open | endOldest | endNewest | send | advance
+	K string `json:"k"` // open | endOldest | endNewest | send | advance | localOff | localOn | reconcile
 	N int    `json:"n,omitempty"`
 }
 
@@ -46,7 +46,13 @@ func c08iRun(t *testing.T, c c08iCase) (viol string, classes map[string]bool) {
 		sm.mutex.Unlock()
 		source := history.ClusterShardID{ClusterID: 1, ShardID: 1} // local on this instance
 		target := history.ClusterShardID{ClusterID: 2, ShardID: 1} // owned by the peer
-		sm.RegisterShard(source)
+		regAt := sm.RegisterShard(source)
+		localUp := true
+		// the peer owns the target shard (as this instance sees it)
+		sm.remoteNodeStatesMu.Lock()
+		sm.remoteNodeStates["node-b"] = NodeShardState{NodeName: "node-b", Updated: time.Now(),
+			Shards: map[string]ShardInfo{ClusterShardIDtoShortString(target): {ID: target, Created: time.Now()}}}
+		sm.remoteNodeStatesMu.Unlock()
 		lifetime, cancel := context.WithCancel(context.Background())
 		type inc struct {
 			ss    *vfServerStream
@@ -69,9 +75,18 @@ func c08iRun(t *testing.T, c c08iCase) (viol string, classes map[string]bool) {
 		live := func() []*inc {
 			var out []*inc
 			for _, x := range incs {
-				if !x.ended {
-					out = append(out, x)
+				if x.ended {
+					continue
 				}
+				select {
+				case <-x.done:
+					// this instance ended the stream itself (reconciliation pruned it): the peer sees that and re-opens
+					x.ended = true
+					classes["stream_ended_by_this_instance"] = true
+					continue
+				default:
+				}
+				out = append(out, x)
 			}
 			return out
 		}
@@ -83,7 +98,7 @@ func c08iRun(t *testing.T, c c08iCase) (viol string, classes map[string]bool) {
 			vfQuiesce()
 		}
 		check := func(where string) {
-			if viol != "" {
+			if viol != "" || !localUp {
 				return
 			}
 			l := live()
@@ -157,6 +172,28 @@ func c08iRun(t *testing.T, c c08iCase) (viol string, classes map[string]bool) {
 			case "advance":
 				time.Sleep(time.Duration(o.N) * time.Millisecond)
 				vfQuiesce()
+			case "localOff":
+				// the source shard's stream on this instance ends (its re-establishment follows with "localOn")
+				if localUp {
+					sm.UnregisterShard(source, regAt)
+					localUp = false
+					vfQuiesce()
+				}
+			case "localOn":
+				if !localUp {
+					regAt = sm.RegisterShard(source)
+					localUp = true
+					classes["source_shard_re_registered"] = true
+					vfQuiesce()
+				}
+			case "reconcile":
+				// what a change of the local or remote shard sets triggers (Notify -> ReconcilePeerStreams); the peer may
+				// not have noticed anything and keeps its healthy stream
+				sm.intraMgr.ReconcilePeerStreams("")
+				vfQuiesce()
+				if !localUp && len(live()) > 0 {
+					classes["reconciled_while_the_source_shard_was_away_and_a_peer_stream_was_open"] = true
+				}
 			}
 			check(fmt.Sprintf("step %d %+v", i, o))
 		}
@@ -165,6 +202,8 @@ func c08iRun(t *testing.T, c c08iCase) (viol string, classes map[string]bool) {
 			x.ss.Kill()
 		}
 		cancel()
+		vfQuiesce()
+		sm.intraMgr.ClosePeer("node-b") // (the client connection towards the peer that reconciliation may have dialled)
 		vfQuiesce()
 		time.Sleep(3 * time.Second)
 		vfQuiesce()
@@ -190,7 +229,7 @@ func TestVF_C08_IntraProxy(t *testing.T) {
 	if rp := vfshared.ReplayPart(); rp != "" && rp != part {
 		t.Skip()
 	}
-	st := vfshared.NewStats("C08", part, "intra-proxy streams: a peer proxy opens the server-side stream for a (target shard on the peer, source shard here) pair, re-opens it while earlier incarnations are still open, incarnations end in any order; oracle at every point where all ended incarnations have finished and one is live: a message for the remote shard sent through the real intraProxyManager arrives exactly once on a live stream; afterwards no sender registration and no goroutine remains; non-trivial = an older incarnation finished after its successor registered")
+	st := vfshared.NewStats("C08", part, "intra-proxy streams: a peer proxy opens the server-side stream for a (target shard on the peer, source shard here) pair, re-opens it while earlier incarnations are still open, incarnations end in any order; the source shard's own stream on this instance goes away and comes back, and reconciliation runs at any point (the peer, which may not have noticed, keeps its stream); oracle at every point where all ended incarnations have finished and one is live: a message for the remote shard sent through the real intraProxyManager arrives exactly once on a live stream; afterwards no sender registration and no goroutine remains; non-trivial = an older incarnation finished after its successor registered")
 	defer st.Flush()
 	run := func(tt interface{ Fatalf(string, ...any) }, c c08iCase) {
 		v, cl := c08iRun(t, c)
@@ -218,9 +257,9 @@ func TestVF_C08_IntraProxy(t *testing.T) {
 	}
 	rapid.Check(t, func(rt *rapid.T) {
 		var c c08iCase
-		n := rapid.IntRange(1, 8).Draw(rt, "n")
+		n := rapid.IntRange(1, 10).Draw(rt, "n")
 		for i := 0; i < n; i++ {
-			c.Ops = append(c.Ops, c08iOp{K: rapid.SampledFrom([]string{"open", "open", "endOldest", "endNewest", "advance"}).Draw(rt, "k"), N: 1000})
+			c.Ops = append(c.Ops, c08iOp{K: rapid.SampledFrom([]string{"open", "open", "endOldest", "endNewest", "advance", "localOff", "localOn", "localOn", "reconcile", "reconcile"}).Draw(rt, "k"), N: 1000})
 		}
 		run(rt, c)
 	})
